@@ -204,9 +204,26 @@ def check_pem(case):
 
 @st.composite
 def accept_cases(draw):
-    kind = draw(st.sampled_from(["raw", "valid", "len", "otherlen", "x>=p", "nonresidue", "y-perturbed", "y-negated", "hybrid", "prefix"]))
+    kind = draw(st.sampled_from(["raw", "valid", "len", "otherlen", "x>=p", "nonresidue", "y-perturbed", "y-negated", "hybrid", "prefix", "coord-aliased"]))
     if kind == "raw":
         return {"kind": kind, "b": draw(st.binary(max_size=70)).hex()}
+    if kind == "coord-aliased":
+        # a coordinate c + p (still 32 bytes) where (c, other) IS a curve point: only an explicit "< p" check rejects it
+        c = draw(st.integers(0, 2**32 + 700))
+        which = draw(st.sampled_from(["x", "y"]))
+        for _ in range(200):
+            if which == "x":
+                y = ec.sqrt_mod((c * c * c + 7) % P)
+                if y is not None:
+                    y = draw(st.sampled_from([y, P - y]))
+                    return {"kind": kind, "b": (b"\x04" + (c + P).to_bytes(32, "big") + y.to_bytes(32, "big")).hex()}
+            else:
+                a = (c * c - 7) % P
+                x = pow(a, (P + 2) // 9, P)  # p = 7 (mod 9): a cube root when one exists
+                if pow(x, 3, P) == a:
+                    return {"kind": kind, "b": (b"\x04" + x.to_bytes(32, "big") + (c + P).to_bytes(32, "big")).hex()}
+            c += 1
+        return {"kind": "raw", "b": ""}
     k = draw(gen.scalars_valid())
     pt = ec.mul(k, ec.G)
     comp = draw(st.booleans())
@@ -288,14 +305,25 @@ def enum_pem_corpus(tier):
             yield {"d": d, "mode": mode}
 
 
-def targets(tier):
+def _targets(tier):
     return [
         Target("sec1-roundtrip", check_roundtrip, strategy=lambda tier: st.fixed_dictionaries({"k": gen.scalars_valid()}), budget={"quick": 1200, "thorough": 25000}),
         Target("sec1-accept", check_accept, strategy=lambda tier: accept_cases(), budget={"quick": 4000, "thorough": 80000},
-               required=["nt:len65-prefix02", "nt:len33-prefix04", "nt:hybrid", "nt:x>=p", "nt:nonresidue", "nt:y-negated", "expect-accept", "expect-reject"]),
+               required=["nt:len65-prefix02", "nt:len33-prefix04", "nt:hybrid", "nt:x>=p", "nt:nonresidue", "nt:y-negated", "nt:coord-aliased", "expect-accept", "expect-reject"]),
         Target("wif", check_wif, strategy=lambda tier: wif_cases(), budget={"quick": 3000, "thorough": 60000},
                required=["nt:key-31-leading-zero-bytes", "nt:suffix", "nt:wif-unknown-version", "nt:wif-mutated", "nt:bad-key-len", "nt:bad-key-range"]),
         Target("pem", check_pem, strategy=lambda tier: pem_cases(), budget={"quick": 320, "thorough": 6000},
                required=["nt:pem-priv", "nt:pem-openssl-priv", "nt:pem-openssl-pub", "nt:key-leading-zeros"] if HAVE_OPENSSL else ["nt:pem-priv"]),
         Target("pem-fixed", check_pem, enumerate_=enum_pem_corpus, shards=4),
     ]
+
+
+def targets(tier):
+    ts = _targets(tier)
+    if tier == "thorough":
+        # coverage-guided add-on (atheris/libFuzzer through Hypothesis' fuzz_one_input); skipped with a class label if atheris is missing
+        from vf import fuzz
+
+        for name in ['sec1-accept', 'wif']:
+            ts.append(fuzz.campaign_target(PROPERTY, name, campaigns=16, runs=20000))
+    return ts
